@@ -93,9 +93,15 @@ func c20OK(r *Rand, day int64) c20Date {
 }
 
 // c20Bad is a value that clearly does not parse: a date phrase, free text, an impossible day, empty.
+func c20Pick3(r *Rand, a, b, c string) string { return []string{a, b, c}[r.Intn(3)] }
+
 func c20Bad(r *Rand, label int) c20Date {
 	var s string
-	switch r.Intn(6) {
+	switch r.Intn(9) {
+	case 6, 7, 8:
+		// a day field that is all zeros before a known month and a year: the documented grammar
+		// has days 1..31, there is no day 0 in any month
+		s = fmt.Sprintf("%s %s %d", c20Pick3(r, "0", "00", "000"), c20MonthForms[label%12][r.Intn(4)], 1000+label)
 	case 0:
 		s = fmt.Sprintf("(about harvest time %d)", label)
 	case 1:
@@ -123,7 +129,7 @@ func c20General(r *Rand, day int64, oddYears bool) c20Date {
 	y2, m2, d2 := c20Civil(day + int64(c20Pick(r, []int{1, 2, 30, 200, 273, 274, 400, 5000, -3, -400})))
 	full2 := fmt.Sprintf("%d %s %d", d2, c20MonthForms[m2-1][0], y2)
 	var s string
-	shape := r.Intn(24)
+	shape := r.Intn(28)
 	if !oddYears && (shape == 16 || shape == 17) {
 		// a year 0 or above 9999 in a birth or death makes the lifespan exceed 292 years, where the
 		// float64 -> int64 conversion in NewAgeWithYears is platform-defined (see props/C20.json)
@@ -176,6 +182,14 @@ func c20General(r *Rand, day int64, oddYears bool) c20Date {
 		s = fmt.Sprintf("Abt. %d and more", y)
 	case 22:
 		s = fmt.Sprintf("%d %d", d, y) // a day without a month
+	case 24: // day zero at the start of a range
+		s = fmt.Sprintf("Bet. %s %s %d and %s", c20Pick3(r, "0", "00", "000"), mon, y, full2)
+	case 25: // day zero at the end of a range
+		s = fmt.Sprintf("Bet. %s and %s %s %d", full, c20Pick3(r, "0", "00", "000"), c20MonthForms[m2-1][0], y2)
+	case 26: // day zero behind a constraint word
+		s = fmt.Sprintf("%s %s %s %d", c20Pick3(r, "Abt.", "Bef.", "aft"), c20Pick3(r, "0", "00", "000"), mon, y)
+	case 27: // day zero on both ends
+		s = fmt.Sprintf("From 0 %s %d to 00 %s %d", mon, y, mon, y+1)
 	default:
 		s = fmt.Sprintf("Bet. Abt. %d and Bef. %d", y, y+2)
 	}
@@ -1210,28 +1224,8 @@ func c20Decode(text string) (doc *gedcom.Document, err error) {
 	return gedcom.NewDocumentFromString(text)
 }
 
-const c20KnownPairKey = "pair-reported-once-per-chil-line"
-
-func c20Run(c *Ctx, d *c20Doc, labels map[string]int, style string, permute bool) {
-	text := d.text()
-	input := map[string]interface{}{"gedcom": text, "style": style}
-	doc, err := c20Decode(text)
-	if err != nil {
-		c.Oracle("", "a generated family-graph document does not decode", input, err.Error(), "decodes")
-		return
-	}
-	now := time.Now()
-	before := doc.String()
-	obs, pan := c20Observe(doc, labels)
-	if pan != "" {
-		c.Oracle("", "Document.Warnings() panics on a well-formed family graph", input, "panic: "+pan, "a list of warnings")
-		return
-	}
-	c.Eval()
-	c.Tie(d.request(now), obs.Line)
-
-	// (S1) the report is the specified multiset (documents of exact days and plain garbage only:
-	// what a non-exact value means is the parser's business, judged by the correspondence)
+// c20CheckSpec: oracle (S1) on one observation of one (possibly edited) document.
+func c20CheckSpec(c *Ctx, d *c20Doc, obs c20Obs, input map[string]interface{}) map[string]bool {
 	hasGeneral := false
 	for _, rec := range d.Recs {
 		evs := []c20Ev{}
@@ -1293,6 +1287,35 @@ func c20Run(c *Ctx, d *c20Doc, labels map[string]int, style string, permute bool
 		c.Oracle("", "a warning does not name the right people", input, strings.Join(obs.Errs, "; "), "context and text name the people of the condition")
 	}
 
+
+	return seenKinds
+}
+
+const c20KnownPairKey = "pair-reported-once-per-chil-line"
+
+func c20Run(c *Ctx, d *c20Doc, labels map[string]int, style string, permute bool, edits ...bool) {
+	edit := len(edits) > 0 && edits[0]
+	text := d.text()
+	input := map[string]interface{}{"gedcom": text, "style": style}
+	doc, err := c20Decode(text)
+	if err != nil {
+		c.Oracle("", "a generated family-graph document does not decode", input, err.Error(), "decodes")
+		return
+	}
+	now := time.Now()
+	before := doc.String()
+	obs, pan := c20Observe(doc, labels)
+	if pan != "" {
+		c.Oracle("", "Document.Warnings() panics on a well-formed family graph", input, "panic: "+pan, "a list of warnings")
+		return
+	}
+	c.Eval()
+	c.Tie(d.request(now), obs.Line)
+
+	// (S1) the report is the specified multiset (documents of exact days and plain garbage only:
+	// what a non-exact value means is the parser's business, judged by the correspondence)
+	seenKinds := c20CheckSpec(c, d, obs, input)
+
 	// (S2) the call does not change the recorded facts, and asking again gives the same answer
 	if after := doc.String(); after != before {
 		c.Oracle("", "Document.Warnings() changed the document it inspected", input, after, before)
@@ -1318,6 +1341,11 @@ func c20Run(c *Ctx, d *c20Doc, labels map[string]int, style string, permute bool
 			c.Tie(p.request(now), pobs.Line)
 			c.Eval()
 		}
+	}
+
+	// (S4) edits below existing events between two calls (only on part of the cases)
+	if edit {
+		c20EditHistory(c, d, doc, labels, style, now, obs.Line)
 	}
 
 	// measurement
@@ -1471,7 +1499,7 @@ func c20TieDoc(r *Rand) *c20Doc {
 func init() {
 	runners["C20"] = func(c *Ctx) {
 		c.Compare = c20Compare(c)
-		c.Rule = "family-graph documents (0..40 people, 0..n families, several families per person) with exact-day or unparsable dates, all in the past (births 1745-1895, everything before 2022, span < 290 years); relationships drawn a few days either side of every threshold plus the exact thresholds; large inversions (death, burial, baptism 100..290 years before the birth, marriage long before a spouse's birth on both sides of 16 and 100 x 365.25 days) alone in an otherwise clean document and combined with other faults; every document also in a shuffled order; distinct = (set of warning kinds reported, number of warnings)"
+		c.Rule = "family-graph documents (0..40 people, 0..n families, several families per person) with exact-day or unparsable dates, all in the past (births 1745-1895, everything before 2022, span < 290 years); relationships drawn a few days either side of every threshold plus the exact thresholds; large inversions (death, burial, baptism 100..290 years before the birth, marriage long before a spouse's birth on both sides of 16 and 100 x 365.25 days) alone in an otherwise clean document and combined with other faults; every document also in a shuffled order; every third document also through an edit history (Warnings(); 1-3 in-place edits of a DATE below an existing event: AddNode / SetNodes / DeleteNode on the event node, Add{Birth,Death,Burial,Baptism}Date on the individual, with Warnings() / Age() / IsLiving() / Estimated…Date() between them; Warnings() again, compared with the model and the specification on the current tree and with a freshly decoded copy of the current text); unparsable values include an all-zero day field (0, 00, 000) before a known month and year, alone, behind a constraint word and at either end of a range; distinct = (set of warning kinds reported, number of warnings)"
 		c.Notes = append(c.Notes,
 			"assumption: all dates are at least four years before time.Now(); today's date is an explicit input of the model",
 			"assumption: no two dates of a document are more than 290 years apart (time.Duration saturates at ~292 years; the model has the saturation, the generator does not reach it)",
@@ -1504,7 +1532,7 @@ func init() {
 					c.Count("inject=" + what)
 				}
 			}
-			c20Run(c, d, labels, style, true)
+			c20Run(c, d, labels, style, true, k%3 == 0)
 			if k%10 == 9 {
 				b, bl := c20Boundary(c.R)
 				c20Run(c, b, bl, "boundary", true)
